@@ -2631,8 +2631,9 @@ impl ProtocolState {
     requires old(self).wf(), clock_ok(old(context).current_time),
         // A-OPID: at most one operation (an acknowledgement) is created per decoded packet, at most one packet ends per byte
         opid_budget(*old(self), data@.len() as int),
-        old(self).state == ProtocolStateType::PendingConnack ==> connack_ready(*old(self)),
-    ensures final(self).wf(),
+        // H1-H6 (DESIGN.md 2) instead of the former assumption A-HANDSHAKE; A-OPS stays: fewer than 2^32 operations tracked at once
+        hs_ok(*old(self)), old(self).operations@.len() < u32::MAX,
+    ensures final(self).wf(), hs_ok(*final(self)),
         (old(self).state == ProtocolStateType::Disconnected || old(self).state == ProtocolStateType::Halted) ==> r is Err && *final(self) == *old(self),
         final(context).current_time == old(context).current_time,
         // C07/C11: nothing the server sends is looked at before the CONNECT has left the queue
@@ -2643,9 +2644,15 @@ impl ProtocolState {
                 self.next_operation_id as int + it.remaining().len() <= old(self).next_operation_id + data@.len(),
                 opid_budget(*old(self), data@.len() as int),
                 self.state == ProtocolStateType::PendingConnack ==> connack_ready(*self),
+                hs_ok(*self),
                 old(self).state != ProtocolStateType::Disconnected && old(self).state != ProtocolStateType::Halted,
                 !(old(self).state == ProtocolStateType::PendingConnack && connect_unsent(*old(self))),
             decreases it.decrease()->Some_0,
+//@@at before "let mut decoded_packets = VecDeque::new();"
+        proof {
+            // the CONNECT has left the queue: H1-H5 give what session handling needs when the CONNACK is accepted
+            if self.state == ProtocolStateType::PendingConnack { lemma_hs_gives_handshake(*self); }
+        }
 //@end
 
 //@fn gneiss-mqtt/src/protocol.rs ProtocolState::initialize_slow_start props=C09,C11
@@ -3284,6 +3291,14 @@ pub open spec fn connack_ready(s: ProtocolState) -> bool {
         && s.operations@.len() < u32::MAX
 }
 
+//@fn gneiss-mqtt/src/mqtt/mod.rs convert_protocol_mode_to_protocol_version props=C11
+//@end
+impl InboundAliasResolver {
+//@fn gneiss-mqtt/src/alias.rs InboundAliasResolver::new props=C17
+    ensures r.current_aliases@ == Map::<u16, String>::empty(), r.maximum_alias_value == maximum_alias_value,
+//@end
+}
+
 impl ProtocolState {
 //@fn gneiss-mqtt/src/protocol.rs ProtocolState::handle_connack props=C07,C14,C11,C17
     requires old(self).wf(), *packet is Connack, clock_ok(old(context).current_time),
@@ -3342,9 +3357,9 @@ impl ProtocolState {
     requires old(self).wf(), opid_budget(*old(self), 1), clock_ok(old(context).current_time), interruptions_in_range(*old(self)),
         // A-OPID for a batch of inbound packets (at most one acknowledgement operation per packet, at most one packet per byte)
         old(context).event matches NetworkEvent::IncomingData(d) ==> opid_budget(*old(self), d@.len() as int),
-        // A-HANDSHAKE (DESIGN.md 6): what must hold of the engine when data arrives during the handshake
-        (old(context).event is IncomingData && old(self).state == ProtocolStateType::PendingConnack) ==> connack_ready(*old(self)),
-    ensures final(self).wf(),
+        // H1-H6 (DESIGN.md 2): established by reset(), kept by all three entry points; A-OPS: fewer than 2^32 operations tracked at once
+        hs_ok(*old(self)), old(self).operations@.len() < u32::MAX,
+    ensures final(self).wf(), hs_ok(*final(self)),
         // every error from an entry point switches to Halted ...
         r is Err ==> final(self).state == ProtocolStateType::Halted,
         // ... and a halted engine accepts no more traffic for that connection (only the close notification)
@@ -3488,6 +3503,15 @@ impl ProtocolState {
                 }
                 k1 = k1 + 1;
             }
+//@end
+
+//@fn gneiss-mqtt/src/protocol.rs ProtocolState::new props=C11,C06,C01
+// the outbound resolver (Arc<dyn Fn> factory, RefCell) is an opaque shim in this unit; everything else of the constructor is the real text
+//@@rewrite "let outbound_resolver = config.outbound_alias_resolver.take().unwrap_or((OutboundAliasResolverFactory::new_null_factory())());" => "let outbound_resolver = verif_resolver_cell();"
+//@@rewrite "outbound_alias_resolver: RefCell::new(outbound_resolver)," => "outbound_alias_resolver: outbound_resolver,"
+    // a new engine satisfies the representation invariant and H1-H6: the induction over all histories of entry-point calls starts here
+    ensures r.wf(), r.cur_ok(), hs_ok(r), r.state == ProtocolStateType::Disconnected,
+        r.operations@ == Map::<u64, ClientOperation>::empty(), r.allocated_packet_ids@ == Map::<u16, u64>::empty(),
 //@end
 
 //@fn gneiss-mqtt/src/protocol.rs ProtocolState::reset props=C01,C06,C11 desugar
